@@ -1649,6 +1649,32 @@ impl<K: Hash + Eq, V, E: OnEvictCallback, S: BuildHasher> RawLRU<K, V, E, S> {
         Ok(())
     }
 
+    /// Verification hook (feature `verif-hooks`): number of entries the index *counts* but
+    /// cannot find any more. Walks the chain over raw links (bounded) and looks every node's
+    /// key up in the index; with a sound hash map `len()` equals the number of nodes found.
+    /// A positive result means the hash map itself lost track of entries (which its
+    /// iterators then over-run).
+    #[cfg(feature = "verif-hooks")]
+    pub fn verif_index_lost(&self) -> usize {
+        let mut found = 0usize;
+        unsafe {
+            let mut cur = (*self.head).next;
+            let mut n = 0usize;
+            let limit = self.map.len() + 64;
+            while cur != self.tail && !cur.is_null() && n <= limit {
+                let key_ptr: *const K = (*cur).key.as_ptr();
+                if let Some(v) = self.map.get(&KeyRef { k: key_ptr }) {
+                    if v.as_ptr() == cur {
+                        found += 1;
+                    }
+                }
+                cur = (*cur).next;
+                n += 1;
+            }
+        }
+        self.map.len().saturating_sub(found)
+    }
+
     /// Verification hook (feature `verif-hooks`): visit every entry, most recently used
     /// first, by following the raw `next` links (at most `len() + 1` nodes are visited, so a
     /// corrupted chain cannot loop forever).
